@@ -24,6 +24,10 @@ class Hang(BaseException):
     pass
 
 
+class ConsumerError(Exception):
+    """Raised by the scripted layer above (listener / callback) while it handles one message."""
+
+
 class time_limit:
     """SIGALRM guard: the receive loops are pure Python, so a runaway loop is interrupted."""
 
@@ -130,7 +134,13 @@ class MrpDriver:
             self.conn._chacha = RecCipher(self.conn._chacha, self.declog)
 
     def message_received(self, parsed, data):
-        self.msgs.append(bytes(data).hex())
+        key = bytes(data).hex()
+        self.msgs.append(key)
+        if key in self.case.get("consumer", ()):
+            raise ConsumerError("listener failed")
+
+    def handed(self):
+        return list(self.msgs)
 
     def stop(self):
         pass
@@ -161,6 +171,11 @@ class CompanionDriver:
 
     def frame_received(self, frame_type, data):
         self.msgs.append([frame_type.value, bytes(data).hex()])
+        if "%d:%s" % (frame_type.value, bytes(data).hex()) in self.case.get("consumer", ()):
+            raise ConsumerError("listener failed")
+
+    def handed(self):
+        return ["%d:%s" % (t, h) for t, h in self.msgs]
 
     def feed(self, chunk):
         self.conn.data_received(chunk)
@@ -228,7 +243,13 @@ class DataStreamDriver:
         self.ch = ch
 
     def handle_protobuf(self, message):
-        self.pbs.append(message.SerializeToString().hex())
+        key = message.SerializeToString().hex()
+        self.pbs.append(key)
+        if key in self.case.get("consumer", ()):
+            raise ConsumerError("listener failed")
+
+    def handed(self):
+        return list(self.pbs)
 
     def handle_connection_lost(self, exc):
         pass
@@ -612,6 +633,17 @@ def http_frames(rng, kind, i):
     return shapes, first
 
 
+def with_consumer(case, idxs):
+    """The layer above raises while handling the idxs-th messages it is handed (keyed by content, so
+    that its behaviour is a function of the message, not of the read boundaries)."""
+    d = DRIVERS[case["conn"]](case)
+    d.feed(case["stream"])
+    keys_ = d.handed()
+    case["consumer"] = sorted({keys_[i] for i in idxs if i < len(keys_)})
+    case["what"] += ", the layer above raises on message(s) %s of %d" % ([i for i in idxs if i < len(keys_)], len(keys_))
+    return case
+
+
 # ------------------------------------------------------------------------------- segmentations
 
 def seg_plan(ctx, rng, n, bounds, coq):
@@ -798,6 +830,9 @@ def gen_cases(ctx):
     for sizes in [[111, 112], [0, 112, 113], [60, 127 - 16, 128 - 16, 1]] + ([[rng.choice(small) for _ in range(3)] for _ in range(6)] if T else []):
         cases.append(mrp_stream(rng, sizes, True))
     cases.append(mrp_stream(rng, [60, 70, 80], True, tamper=1))
+    cases.append(with_consumer(mrp_stream(rng, [60, 70, 80], False), [0]))
+    cases.append(with_consumer(mrp_stream(rng, [50, 0, 129, 61], False), [1, 2]))
+    cases.append(with_consumer(mrp_stream(rng, [60, 70, 80], True), [0, 2]))
     for sizes in [[16383], [16384, 5], [3, 16385, 16383]]:
         c = mrp_stream(rng, sizes, False)
         c["big"] = True
@@ -818,6 +853,8 @@ def gen_cases(ctx):
     for specs in [[(8, 1), (8, 0), (8, 239), (8, 240)], [(8, 255 - 16), (7, 256 - 16), (8, 2)], [(2, 9), (8, 40)]]:
         cases.append(companion_stream(rng, specs, True))
     cases.append(companion_stream(rng, [(8, 30), (8, 31), (8, 32)], True, tamper=1))
+    cases.append(with_consumer(companion_stream(rng, [(8, 5), (8, 6), (7, 7)], False), [0]))
+    cases.append(with_consumer(companion_stream(rng, [(8, 9), (8, 0), (18, 20)], True), [1, 2]))
     for specs in [[(8, 65535)], [(8, 65536), (8, 1)], [(8, 3), (8, 65537), (8, 65535)]]:
         c = companion_stream(rng, specs, False)
         c["big"] = True
@@ -841,6 +878,8 @@ def gen_cases(ctx):
     # --- data stream channel over HAP
     def ds_case(kinds, blocks=None, valid=True, what=""):
         frames = [ds_frame(rng, k, 100 + i, npb=1 + (i % 2)) if isinstance(k, str) else k for i, k in enumerate(kinds)]
+        if blocks == "per-frame":
+            blocks = [len(f) for f in frames]
         c, peer = layered_stream(rng, "datastream", frames, blocks, valid, what or "frames %s blocks %s" % ([k if isinstance(k, str) else "raw" for k in kinds], blocks or "1024-split"))
         c["probe"] = hap_blocks(peer, ds_frame(rng, "sync", 999))
         c["expect"] = len(kinds)
@@ -851,6 +890,8 @@ def gen_cases(ctx):
     cases.append(ds_case(["sync", "rply", "noparams"], blocks=[5, 27, 1, 1024]))
     cases.append(ds_case(["rply", "rply", "sync"], blocks=[31, 2, 31, 1024]))
     cases.append(ds_case(["sync", "sync"], blocks=[33, 64, 1024]))
+    cases.append(with_consumer(ds_case(["sync", "sync", "sync"], blocks="per-frame"), [0]))
+    cases.append(with_consumer(ds_case(["sync", "rply", "sync", "sync"], blocks="per-frame"), [1]))
     cases.append(ds_case(["sync", "list", "sync"], valid=False, what="second frame's payload is a plist list: handler raises"))
     cases.append(ds_case(["rply", ds_frame(rng, "rply", 5, size_override=0), "sync"], valid=False, what="header.size = 0 (pre-fix 6360fe4: endless loop)"))
     cases.append(ds_case(["sync", ds_frame(rng, "rply", 5, size_override=31)], valid=False, what="header.size = 31"))
@@ -960,6 +1001,9 @@ def gen_cases(ctx):
             cases.append(c)
     for c in cases:
         c["domain"] = not c.get("unmodelled", False)
+    # streams whose layer above raises come last (stable): they probe the barrier around the consumer,
+    # everything before probes the reassembly itself
+    cases.sort(key=lambda c: bool(c.get("consumer")))
     return cases
 
 
@@ -1066,7 +1110,12 @@ def judge(ctx, case, coq):
         if not case["valid"]:
             continue
         # ---- the property, judged on the implementation
-        if o["raised"] is not None:
+        if o["raised"] == "ConsumerError":
+            # the layer above failed on one message; the receive loop let that out of data_received,
+            # which costs the whole connection (asyncio closes the transport)
+            k = "consumer-exception-escapes"
+            what = "the exception of the layer above escaped data_received (%s)" % case["what"]
+        elif o["raised"] is not None:
             k = "split-raises" if cuts else "valid-stream-raises"
             what = "%s escaped data_received on a valid stream (%s)" % (o["raised"], case["what"])
         elif sig != whole[2]:
@@ -1122,6 +1171,8 @@ def replay_of(case, cuts):
          "expect": case.get("expect") if case.get("valid") else None}
     if case.get("handler"):
         r["handler"] = case["handler"]
+    if case.get("consumer"):
+        r["consumer"] = case["consumer"]
     if r["stream"] is None:
         r["stream_z"] = __import__("base64").b64encode(__import__("zlib").compress(case["stream"])).decode()
     return r
@@ -1134,7 +1185,7 @@ def case_of_replay(r):
         stream = __import__("zlib").decompress(__import__("base64").b64decode(r["stream_z"]))
     return {"conn": r["conn"], "enc": r["enc"], "okey": bytes.fromhex(r["okey"]), "ikey": bytes.fromhex(r["ikey"]),
             "stream": stream, "probe": bytes.fromhex(r.get("probe", "")), "what": r.get("what", ""), "valid": True,
-            "expect": r.get("expect"), "handler": r.get("handler")}
+            "expect": r.get("expect"), "handler": r.get("handler"), "consumer": r.get("consumer") or []}
 
 
 def judge_replay(case, cuts):
@@ -1144,6 +1195,8 @@ def judge_replay(case, cuts):
     errs = []
     if "HANG" in (o["raised"], (a or {}).get("raised")):
         errs.append("hangs")
+    elif o["raised"] == "ConsumerError":
+        errs.append("consumer-exception-escapes")
     elif o["raised"] is not None:
         errs.append("split-raises" if wo["raised"] is None else "valid-stream-raises")
     elif json.dumps(o, sort_keys=True) != json.dumps(wo, sort_keys=True):
@@ -1409,6 +1462,7 @@ def run(ctx):
         "the segmentation theorems for the three HTTP loops assume that the strict parser (which refuses a negative Content-Length) reads the unsplit stream without failure; with a negative length the code as written is segmentation dependent (theorem C02_http_negative_content_length_refuted) - not a valid stream; termination (C02_loops_terminate, C02_http_parse_consumes) holds for every integer length",
         "header keys are ASCII (str.lower of non-ASCII letters is not modelled); the body's text decoding is ignored",
         "the 64-bit/96-bit nonce counters do not overflow; EventChannel.send does not raise (transport connected)",
+        "the layer above is an input: listeners raise on scripted messages (MRP, Companion: swallowed by the per-frame barrier - theorems C02_*_consumer_segmentation; data stream channel: no barrier, the exception leaves data_received = model failure EHandler and is reported as C02:datastream:consumer-exception-escapes); the event channel and the HTTP client hand messages to no callback that could raise (reply via transport.write / asyncio.Event.set)",
         "streams with a blank request line are not valid streams: EventChannel then delays the following complete request until the next read (lemma evchan_blank_line_depends_on_segmentation)",
     ]
 
@@ -1430,4 +1484,10 @@ def replay(ctx, path):
     errs, wo, o = judge_replay(case, r["cuts"])
     print("conn=%s cuts=%s\n unsplit: %s\n split:   %s\n property-errors=%s" % (
         case["conn"], r["cuts"], json.dumps(wo)[:600], json.dumps(o)[:600], errs))
+    # a replay file is about ONE failure class (its key); other classes on the same input have
+    # their own replay files
+    about = str(d.get("key", "")).split(":")[-1]
+    if about in ("split-raises", "valid-stream-raises", "split-changes-messages", "split-breaks-connection",
+                 "valid-stream-not-delivered", "consumer-exception-escapes", "hangs"):
+        return 1 if about in errs else 0
     return 1 if errs else 0
